@@ -35,7 +35,8 @@ def main():
         rc, out = sh("%s cargo test --offline --lib 2>&1 | grep 'test result'" % env, cwd=wt)
         meta["pinned_tests_with_change"] = out.strip()
         rc, out = sh("%s cargo test --offline --test seed_demo 2>&1 | tail -15" % env, cwd=wt)
-        meta["demo_fails_with_change"] = "FAILED" in out or "failed" in out
+        import re
+        meta["demo_fails_with_change"] = bool(re.search(r"test result: FAILED|[1-9][0-9]* failed|error(\[E[0-9]+\])?: ", out))
     finally:
         sh("git -C /repo worktree remove --force %s" % wt)
     # the checks against the changed /repo
